@@ -37,7 +37,7 @@ static void gzip_write_case(long idx, vrng *r)
 	if (V_TRY(20)) {
 		isal_deflate_init(zs); isal_gzip_header_init(gh);
 		gh->text = h.text; gh->time = h.mtime; gh->xflags = h.xfl; gh->os = h.os; gh->hcrc = h.hcrc;
-		gh->extra = ex; gh->extra_len = h.extra_len; gh->extra_buf_len = h.extra_len; gh->name = nm; gh->name_buf_len = nm ? (uint32_t) strlen(nm) + 1 : 0; gh->comment = cm; gh->comment_buf_len = cm ? (uint32_t) strlen(cm) + 1 : 0;
+		gh->extra = ex; gh->extra_len = h.extra_len; gh->extra_buf_len = h.extra_len + (vrn(r, 2) ? vrn(r, 500) : 0);   /* a buffer larger than the field (e.g. a parsed header being re-emitted) */ gh->name = nm; gh->name_buf_len = nm ? (uint32_t) strlen(nm) + 1 : 0; gh->comment = cm; gh->comment_buf_len = cm ? (uint32_t) strlen(cm) + 1 : 0;
 		if (h.has_extra && !ex) gh->extra = (uint8_t *) gh;       /* zero-length extra field: a non-NULL pointer selects FEXTRA */
 		zs->next_out = out; zs->avail_out = (uint32_t) cap; zs->total_out = 7;
 		memcpy(&snap, zs, sizeof snap);
